@@ -85,3 +85,10 @@ Example C19_geom_ok_sets : geom_ok lov lun.
 Proof. exact geom_ok_lists. Qed.
 Example C19_merge_ex : merge lov lun [[1;2];[3];[2;3];[7]]%nat = [([3], [7]); ([1;0;2], [3;1;2;2;3])]%nat.
 Proof. vm_compute. reflexivity. Qed.
+
+(* histories with observations: to_array() is a pure read, so after EVERY prefix of the append history
+   the observed array is the concatenation of the rows appended so far *)
+Theorem C19_row_appendable_every_prefix : forall (A : Type) cap (appends : list (list A)) (k : nat),
+  raa_to_array (fold_left raa_append (firstn k appends) (raa_init cap)) = map Some (concat (firstn k appends)).
+Proof. intros A cap appends k. exact (@raa_refines_concat A cap (firstn k appends)). Qed.
+Print Assumptions C19_row_appendable_every_prefix.
